@@ -7,7 +7,10 @@ package types
 // left-associative) and element-wise operator tokens. ------------------------------------------------------------
 //@ spec func isBin(e dsl.Expression) bool = typeof(e) == *dsl.BinaryExpression && e.(*dsl.BinaryExpression) != nil
 //@ spec func opOf(e dsl.Expression) dsl.BinaryOperator = e.(*dsl.BinaryExpression).Operator
-//@ spec func needsLeft(t *dsl.BinaryExpression) int = ite(isBin(t.Left) && opOf(t.Left).Precedence() < t.Operator.Precedence(), 1, 0)
+// A negated operand on the left of a power: yardl reads `-x ** 2` as (-x) ** 2 (the minus belongs to the operand)
+// and C++ prints std::pow(-(x), 2); MATLAB's ^ binds tighter than unary minus, so the operand keeps its parentheses.
+//@ spec func isNeg(e dsl.Expression) bool = typeof(e) == *dsl.UnaryExpression
+//@ spec func needsLeft(t *dsl.BinaryExpression) int = ite((isBin(t.Left) && opOf(t.Left).Precedence() < t.Operator.Precedence()) || (t.Operator == dsl.BinaryOpPow && isNeg(t.Left)), 1, 0)
 //@ spec func needsRight(t *dsl.BinaryExpression) int = ite(isBin(t.Right) && opOf(t.Right).Precedence() <= t.Operator.Precedence(), 1, 0)
 //@ func writeComputedFieldExpression@emits:".*"
 //@   property C19
